@@ -17,6 +17,7 @@
  *           r<seed>[/rep]       [r] c<seed>      (a point of the cofactor part: order divides h2)
  *           h<seed>[/rep]       [h2] c<seed>     (a subgroup member not constructed from the generator)
  *           o<ell>,<seed>[/rep] [(h2 r)/ell] c<seed>   (ell a prime factor of h2: order ell or identity)
+ *           s<ell>,<seed>,<k>[/rep]   [k]G2 + o<ell>,<seed>   (a non-member next to a member)
  *           xy<x0>,<x1>,<y0>,<y1>[/rep]    affine VALUES as given (may be off the curve)
  *           rep: P | J (retag, z = 1)   p<z0>,<z1> (x z, y z, z; PROJC)   j<z0>,<z1> (x z^2, y z^3, z; JACOB)
  *   scalar  hex with optional '-'
@@ -250,6 +251,21 @@ static void set_point2(ep2_t p, char *tok) {
 		bn_mul(k, H2, N2); bn_div(k, k, l);
 		ep2_mul_basic(p, p, k); ep2_norm(p, p);
 		bn_free(l);
+	} else if (tok[0] == 's') {
+		/* s<ell>,<seed>,<k>: [k]G2 + (point of order ell): a non-member next to a member */
+		char *sd = strchr(tok, ','), *ks = sd ? strchr(sd + 1, ',') : NULL;
+		bn_t l; ep2_t t2;
+		if (!ks) { fprintf(stderr, "bad point token %s\n", tok); exit(2); }
+		bn_null(l); bn_new(l); ep2_null(t2); ep2_new(t2);
+		*sd++ = 0; *ks++ = 0;
+		vh_bn_set(l, tok + 1);
+		ep2_from_seed(p, sd);
+		bn_mul(k, H2, N2); bn_div(k, k, l);
+		ep2_mul_basic(p, p, k);
+		vh_bn_set(k, ks);
+		ep2_mul_basic(t2, G2, k);
+		ep2_add(p, p, t2); ep2_norm(p, p);
+		bn_free(l); ep2_free(t2);
 	} else if (tok[0] == 'x' && tok[1] == 'y') {
 		char *y = tok + 2, *c;
 		c = strchr(y, ','); if (c) c = strchr(c + 1, ',');
